@@ -14,6 +14,7 @@ import (
 	"strconv"
 	"strings"
 	"sync"
+	"sync/atomic"
 	"time"
 	"unsafe"
 )
@@ -124,8 +125,13 @@ func verifUnfreeze()                                 {}
 func verifMapOrder(site string)                      {}
 func verifMapOrderArg() string                       { return "" }
 func verifSteps() int                                { return 0 }
-func verifSymbolic() bool                            { return false }
-func verifRaceTrack(on bool)                         {}
+
+// verifConfirmingFrozen: true in the native run that confirms a frozen-write report of the engine
+// (the harness then also compares the package-level variables before and after).
+func verifConfirmingFrozen() bool { return os.Getenv("VERIF_CONFIRM_FROZEN") != "" }
+func verifSymbolic() bool         { return false }
+func verifRaceTrack(on bool)      {}
+func verifSchedChoice()           {}
 
 // verifDeepDigest: structural digest of everything reachable from the roots (slices up to their
 // capacity, unexported fields included). The engine replaces it by a constant: there the frozen-
@@ -176,6 +182,15 @@ func verifDeepDigest(roots ...interface{}) string {
 					})
 					sort.Strings(ents)
 					sb.WriteString("syncmap{" + strings.Join(ents, ",") + "}")
+					return
+				}
+				if v.Type() == reflect.TypeOf(atomic.Value{}) && v.CanAddr() {
+					// what an atomic.Value holds (a cache)
+					sb.WriteString("atomicvalue{")
+					if x := (*atomic.Value)(unsafe.Pointer(v.UnsafeAddr())).Load(); x != nil {
+						walk(reflect.ValueOf(x), depth+1)
+					}
+					sb.WriteString("}")
 					return
 				}
 				switch pp {
